@@ -535,7 +535,7 @@ pub fn run(desc: &Value, ctx: &Ctx) -> CaseOut {
             out.obs.set("codecs", fx.comp.name());
             monitor_reset(ju64(desc, "delay_seed"), ju64(desc, "delay_level"));
             let container = match jbk::reader::Container::new(&fx.path) {
-                Ok(c) => Arc::new(SendContainer(c)),
+                Ok(c) => Arc::new(c),
                 Err(e) => {
                     out.inconclusive(format!("fixture does not open: {e}"));
                     return;
@@ -556,13 +556,13 @@ pub fn run(desc: &Value, ctx: &Ctx) -> CaseOut {
                         let res = (|| -> Result<(), String> {
                             // first access from many threads at once: pack slot, entry/value stores
                             if t % 2 == 0 {
-                                directory_probe(&container.0, fx.n_entries, &mut rng, &mut tally)?;
+                                directory_probe(&container, fx.n_entries, &mut rng, &mut tally)?;
                             }
                             let mut held: Vec<(ByteRegion, usize)> = vec![];
                             for _ in 0..ops {
                                 // a few hot contents shared by all threads, else spread over all clusters
                                 let i = if rng.chance(1, 3) { (rng.below(4) * 7) as usize % fx.addrs.len() } else { rng.usize_below(fx.addrs.len()) };
-                                let region = match container.0.get_bytes(fx.addrs[i]).map_err(|e| format!("get_bytes: {e}"))? {
+                                let region = match container.get_bytes(fx.addrs[i]).map_err(|e| format!("get_bytes: {e}"))? {
                                     Some(jbk::reader::MayMissPack::FOUND(Some(r))) => r,
                                     _ => return Err(format!("content {i} not found")),
                                 };
@@ -608,12 +608,6 @@ pub fn run(desc: &Value, ctx: &Ctx) -> CaseOut {
     out.fp = fp.hex();
     out
 }
-
-struct SendContainer(jbk::reader::Container);
-// Container is used from many threads exactly as an application would (it is Sync in the library's API: all
-// its methods take &self and its fields are Arc/OnceLock/Mutex protected). The wrapper only carries it into scoped threads.
-unsafe impl Send for SendContainer {}
-unsafe impl Sync for SendContainer {}
 
 fn directory_probe(c: &jbk::reader::Container, n: u32, rng: &mut Rng, tally: &mut Tally) -> Result<(), String> {
     let index = c.get_index_for_name("files").map_err(|e| e.to_string())?.ok_or("index missing")?;
@@ -671,4 +665,11 @@ fn run_pure(desc: &Value, threads: usize, ops: usize, op_seed: u64, first_err: &
         }
     });
     out.obs.add("pure_buffers", n_bufs as u64);
+}
+
+#[allow(dead_code)]
+fn _container_is_shareable() {
+    fn assert_send_sync<T: Send + Sync>() {}
+    assert_send_sync::<jbk::reader::Container>();
+    assert_send_sync::<ByteRegion>();
 }
